@@ -399,3 +399,37 @@ def units(prop, tier):
     out.append(pyvc_unit(prop, 'int.base._tonelli_shanks', registry, [IB + '._tonelli_shanks']))
     out += lemma_units(prop, 'int.', registry)
     return out
+
+
+# ----------------------------------------------------------------------------------------------------------------------
+# NOT PROVED: IntegerNative.jacobi_symbol (P2: recursion against an axiomatised Jacobi symbol; not attempted).
+# NOT PROVED: IntegerNative.sqrt(modulus=...) with Integer-typed arguments: _tonelli_shanks soundness is proved for python ints
+#             (IntegerGMP passes ints; IntegerNative passes `self % modulus`, an Integer) -- the Integer-typed instance is not.
+# NOT PROVED: _tonelli_shanks completeness for prime p (group theory), termination of any loop (never claimed).
+# NOT PROVED: __str__/__repr__/__hex__ (strings are outside the value model), float arguments of __init__.
+# TRUSTED lemma forms (ground instances of textbook theorems about uninterpreted symbols, contracts/_intcommon.py LEMMA_TEXT):
+#             be_cat/be_split/be_lt/be_zeros (positional notation), pow2_add, modpow_reduce, mulmod_reduce (z3 cannot prove
+#             modular-arithmetic identities with a symbolic modulus; Mathlib: Int.mul_emod, Int.ModEq.pow, pow_add).
+# PROVED lemmas (own units *.lemmas): radix_lt, radix_ge, ceil_unique, range_index, isqrt_unique, mul_divisible, div_exact.
+#
+# Vacuity / strength check (tools/mut.py, exit 1 unless noted; obligation that caught it):
+#  C14 _IntegerNative.py  __add__: `+` -> `-`                               -> __add__.ensures.value
+#                         __mod__: `< 0` -> `<= 0`                          -> __mod__.raises_iff.ValueError.only_if
+#                         to_bytes: `len(result) > block_size` -> `>=`      -> to_bytes.raises_iff.ValueError.only_if
+#                         size_in_bits: `return 1` -> `return 0`            -> size_in_bits.ensures.value
+#                         sqrt: Newton step `+ 1`                           -> sqrt.loop_inv_preserved.y_x_x_x_value
+#                         sqrt: `while y + 1 < x`                           -> sqrt.ensures.value
+#                         is_perfect_square: `==` -> `>=`                   -> is_perfect_square.ensures.value
+#                         lcm: `+ 1`                                        -> lcm.ensures.value
+#                         inplace_pow: pow(exp, base, mod) swapped          -> exit 2 (negative-exponent pow outside the model)
+#                         __mod__: local divisor_value renamed to dv        -> exit 0 (harmless refactoring)
+#  C14 _IntegerBase.py    _tonelli_shanks: `pow(root, 2, p)` -> `pow(root, 3, p)` -> _tonelli_shanks.ensures.root
+#                         _tonelli_shanks: final check removed              -> exit 2 (root neither provable nor refutable)
+#  C18 _IntegerBase.py    random: mask `(1 << s) - 1` -> `(1 << s)`         -> random.lemma.top / ensures.value, range
+#                         random: bytes_needed = bits // 8 + 1              -> random.ensures.reads, value
+#                         random: tail read from Random.new().read          -> random.ensures.system_untouched, reads
+#                         random_range: `<= norm_maximum + 1`               -> random_range.ensures.range
+#                         random_range: max_bits=bits_needed + 1            -> random_range.loop_inv_entry/preserved (candidate)
+#                         random_range: `(c % (max+1)) + min` (equivalent on the accepted range) -> exit 0
+#                         random: local msb renamed                         -> exit 2 (proof step mentions the local)
+#  (genuine defect found and repaired: F1 IntegerNative._mult_modulo_bytes(int, Integer, int) raised TypeError)
